@@ -2037,7 +2037,13 @@ def coneqp(P, q, G = None, h = None, dims = None, A = None, b = None,
         if pcost == 0.0: relgap = None
         else: relgap = 0.0
 
-        return { 'status': 'optimal', 'x': x,  'y': y, 'z':
+        # The KKT system is solved without iteration; if [P; A] is rank
+        # deficient and the factorization did not fail, x and y need not
+        # satisfy the optimality conditions.
+        if pres <= FEASTOL and dres <= FEASTOL: status = 'optimal'
+        else: status = 'unknown'
+
+        return { 'status': status, 'x': x,  'y': y, 'z':
             matrix(0.0, (0,1)), 's': matrix(0.0, (0,1)),
             'gap': 0.0, 'relative gap': 0.0,
             'primal objective': pcost,
